@@ -802,7 +802,8 @@ def explicit_base_with_cenc(data: bytes) -> bool:
         if m.type == b'moof':
             tf = m.find(b'traf', b'tfhd')
             if tf is not None and m.find(b'traf', b'saio') is not None and m.find(b'traf', b'senc') is not None:
-                return bool(isobmff.fullbox(data, tf)[1] & 1)
+                if isobmff.fullbox(data, tf)[1] & 1:
+                    return True         # (any fragment of the file, not only the first)
     return False
 
 
